@@ -67,7 +67,7 @@ end Sys
 structure DSh where
   isDisposed : Bool := false
   actions : Nat := 0          -- how often `self.action()` ran
-  returned : Nat := 0         -- ghost: number of `dispose()` calls that returned
+  returned : Nat := 0         -- ghost: number of `dispose()` calls that ended (returned, or raised out of the action)
   log : List Ev := []
 
 inductive DPc where
@@ -78,7 +78,9 @@ deriving Repr, DecidableEq
 /-- a thread: pc and the number of `dispose()` calls it still makes -/
 abbrev DTh := DPc × Nat
 
-def dStep (s : DSh) : DTh → DSh × DTh
+/-- `raises k` : the k-th invocation of the user's action raises (the exception propagates out of `dispose()`;
+the flag was set before, under the lock, and nothing resets it). -/
+def dStep (raises : Nat → Bool) (s : DSh) : DTh → DSh × DTh
   | (.idle, 0) => (s, (.idle, 0))
   | (.idle, n + 1) =>
     -- with self.lock: if not self.is_disposed: dispose = True; self.is_disposed = True
@@ -87,7 +89,8 @@ def dStep (s : DSh) : DTh → DSh × DTh
     else ({ s with isDisposed := true, log := s.log ++ [.lock 0] }, (.won, n))
   | (.won, n) =>
     -- if dispose: self.action()
-    ({ s with actions := s.actions + 1, returned := s.returned + 1, log := s.log ++ [.action, .ret .unit] }, (.idle, n))
+    ({ s with actions := s.actions + 1, returned := s.returned + 1,
+              log := s.log ++ [.action, if raises s.actions then .raised else .ret .unit] }, (.idle, n))
 
 def dInit (calls : List Nat) : Sys DSh DTh := ⟨{}, calls.map fun n => (.idle, n)⟩
 
